@@ -221,6 +221,36 @@ Example C08_nonvacuous :
   /\ length (vectors role_opts 3) = 27%nat.
 Proof. split; [vm_compute; reflexivity|]. split; [eexists; split; [|split]; vm_compute; reflexivity|vm_compute; reflexivity]. Qed.
 
+(* ---- the executor layer: on every heartbeat the step whose turn it is is judged on the region as reported NOW (leader
+        included - leadership moves without any change of the epoch); the model of Dispatch never sends the command of a
+        step whose precondition fails and never keeps such an operator running.  The real OperatorController is compared
+        with exec_model on builder plans (commands applied or lost, leader moved between heartbeats) and exec_monitor is
+        evaluated on its own observations ---- *)
+Definition with_outs (xs : list xobs) (outs : list (list cmd * bool)) : list xobs :=
+  map (fun xo => XObs (x_hb (fst xo)) (x_region (fst xo)) (fst (snd xo)) (snd (snd xo))) (combine xs outs).
+
+Theorem C08_executor_never_sends_unsafe_step :
+  forall xs rem alive, exec_monitor rem (with_outs xs (exec_model rem alive xs)) = None.
+Proof.
+  induction xs as [|x xr IH]; intros rem alive; [reflexivity|].
+  cbn [exec_model]. destruct alive; cbn [negb].
+  - destruct (skip_finished (x_region x) rem) as [|s t] eqn:E.
+    + destruct (x_hb x); unfold with_outs; cbn [combine map exec_monitor fst snd x_region]; rewrite E; reflexivity.
+    + destruct (x_hb x && negb (safe (x_region x) s)) eqn:C.
+      * unfold with_outs; cbn [combine map exec_monitor fst snd x_region x_hb x_sent x_running]. rewrite E.
+        cbn [length Nat.eqb negb]. rewrite !andb_false_r. reflexivity.
+      * unfold with_outs; cbn [combine map exec_monitor fst snd x_region x_hb x_sent x_running]. rewrite E.
+        assert (B : x_hb x && nodup_stores (peers (x_region x)) && step_ids_nonzero s && negb (spec_safe (x_region x) s) = false).
+        { destruct (x_hb x); [|reflexivity]. cbn [andb] in *. apply negb_false_iff in C.
+          destruct (nodup_stores (peers (x_region x))) eqn:N; [|reflexivity]. destruct (step_ids_nonzero s) eqn:Z0; [|reflexivity].
+          cbn [andb]. apply negb_false_iff. apply C08_check_safety_sound; auto.
+          unfold safe in C. destruct (check_safety (x_region x) s); [discriminate|reflexivity]. }
+        rewrite B. cbn [andb]. apply IH.
+  - unfold with_outs; cbn [combine map exec_monitor fst snd x_region x_hb x_sent x_running].
+    destruct (skip_finished (x_region x) rem); [reflexivity|]. cbn [length Nat.eqb negb]. rewrite !andb_false_r. reflexivity.
+Qed.
+
+Print Assumptions C08_executor_never_sends_unsafe_step.
 Print Assumptions C08_plan_ok_sound.
 Print Assumptions C08_exec_plan_covers_steps.
 Print Assumptions C08_check_safety_sound.
